@@ -28,7 +28,8 @@ CONSTANTS SeqM,        \* 256 in the protocol; small in the bounded model
 (* packet-send commands last                                               *)
 (* the keep-alive is what the watchdog issues: nop (version 4), the counter reads, and the free-buffer read getValue *)
 High == {"nop", "readCounters", "readAndClearCounters", "getValue"}
-Low  == {"sendUnicast", "sendMulticast", "sendBroadcast"}
+Low  == {"sendUnicast", "sendMulticast", "sendBroadcast",
+         "setSourceRoute", "setExtendedTimeout"}      \* the set-up commands of a send belong to the packet-send path
 Prio(cmd) == IF cmd \in High THEN 2 ELSE IF cmd \in Low THEN 0 ELSE 1
 
 NoHold == [c |-> 0, cmd |-> "", ph |-> "", t0 |-> 0, early |-> "none", ev |-> 0]
